@@ -37,7 +37,7 @@ Section Trace.
     2:{ cbn [fst]. intros H. congruence. }
     rewrite Hp. destruct (queue_max q) as [mx|]; [|reflexivity].
     destruct tr2' as [|[| |p s ans|] tr3]; cbn [app fst is_mismatch]; try discriminate.
-    destruct (get p q) as [prio|]; [|reflexivity].
+    destruct (get p q) as [[prio qs]|]; [|reflexivity].
     destruct (negb (Z.eqb prio mx)); [reflexivity|].
     destruct (term_for _ p) as [[cur|cur]|]; try reflexivity.
     destruct (negb (vs_eqb O s cur)); cbn [fst is_mismatch]; [discriminate|].
@@ -108,7 +108,7 @@ Section Trace.
     apply explained_cons. apply explained_app.
     destruct (queue_max q) as [mx|]; [|unfold res_out; destruct (extract_solution (ps st1)); exact I].
     destruct tr2 as [|[| |p s ans|] tr3]; cbn [fst]; try exact I.
-    destruct (get p q) as [prio|]; [|exact I].
+    destruct (get p q) as [[prio qs]|]; [|exact I].
     destruct (negb (Z.eqb prio mx)); [exact I|].
     destruct (term_for _ p) as [[cur|cur]|]; try exact I.
     destruct (vs_eqb O s cur) eqn:Es; cbn [negb fst]; [|exact I]. apply vs_eqb_eq in Es. subst cur.
